@@ -47,6 +47,7 @@ type Schedule struct {
 	ID    int   `json:"id"`
 	Reqs  []Req `json:"reqs"`  // request i+1 = Reqs[i]
 	Steps []int `json:"steps"` // thread to release, one gate-to-gate step each; then the crash
+	Fail  []int `json:"fail"`  // requests whose checkpoint write fails (the storage wrapper returns an error instead of writing)
 	Free  bool  `json:"free"`  // no gates: the requests run as free goroutines, then a clean restart
 	// Blackbox: the real `nokv pd` binary is started on a work directory, the requests are sent
 	// over gRPC concurrently, the process is killed (SIGKILL) and started again, Rounds times.
@@ -55,18 +56,29 @@ type Schedule struct {
 }
 
 var errDead = errors.New("pd process is dead")
+var errInjected = errors.New("injected checkpoint write failure")
 
 // gateStore wraps the real store; only SaveAllocatorState is interposed.
 type gateStore struct {
 	pdstorage.Store
 	s    *gate.Sched
 	dead *atomic.Bool
+	fail map[int]bool // by thread id (gated runs)
+	// free-running runs: every failEvery-th write fails
+	failEvery int64
+	writes    atomic.Int64
 }
 
 func (g *gateStore) SaveAllocatorState(id, ts uint64) error {
 	g.s.Yield("save.enter", id, ts)
 	if g.dead.Load() {
 		return errDead
+	}
+	if t, ok := g.s.IsThread(); ok && g.fail[t] {
+		return errInjected
+	}
+	if g.failEvery > 0 && g.writes.Add(1)%g.failEvery == 0 {
+		return errInjected
 	}
 	err := g.Store.SaveAllocatorState(id, ts)
 	g.s.Yield("save.exit")
@@ -148,7 +160,14 @@ func run(base string, sc *Schedule, w *vt.Writer) {
 	if err != nil {
 		vt.Fatal("start pd: %v", err)
 	}
-	svc.SetStorage(&gateStore{Store: store, s: s, dead: &dead})
+	gs := &gateStore{Store: store, s: s, dead: &dead, fail: map[int]bool{}}
+	for _, t := range sc.Fail {
+		gs.fail[t] = true
+	}
+	if sc.Free && len(sc.Fail) > 0 {
+		gs.failEvery = int64(sc.Fail[0])
+	}
+	svc.SetStorage(gs)
 	emit := func(ev vt.Ev) { ev["s"] = sc.ID; w.Emit(ev) }
 	var wg sync.WaitGroup
 	begin := make(chan struct{})
